@@ -25,6 +25,8 @@
  * uninterpreted size function */
 #define T_RBUF(self) ((self)->m_recv_handler != 0 ? ((self)->m_recv_buffer.n >= 1 && (self)->m_recv_buffer.n <= 64 && BUFSEQ_SIZE((self)->m_recv_buffer, 0) >= 1) : 1)
 #define RD_GHOST g_rd_copies, g_rd_bytes, g_rd_size, g_rd_pre
+/* a pending write holds the caller's buffer sequence */
+#define T_SBUF(self) ((self)->m_send_handler != 0 ? (self)->m_send_buffer.n <= 64 : 1)
 #define CH_FRESH(self) ((self)->m_channel == (struct channel *)0 ? 1 : __CPROVER_is_fresh((self)->m_channel, sizeof(struct channel)))
 /* a connected socket is one end of its channel */
 #define CH_MINE(self) ((self)->m_channel->ep[0] != (self)->m_channel->ep[1] && ((self)->m_channel->ep[0] == (self)->m_bound_to || (self)->m_channel->ep[1] == (self)->m_bound_to))
